@@ -16,6 +16,7 @@
 (3) witness search: an independent Python statement of the property (vinestruct.py_validate, own Kruskal) on every
     implementation output of (i) and (ii).
 """
+COQCHK = ['C16_fit']   # cones without Coquelicot / Interval: coqchk -o re-checks them in about a minute each (thorough tier)
 import contextlib
 import hashlib
 import itertools
